@@ -39,6 +39,16 @@ func (m *Mon) checkStep(sc *StepCtx) {
 
 func eqInt(a *big.Int, b *big.Int) bool { return a.Cmp(b) == 0 }
 
+// createdByModule: the module that created the context, as the harness saw it at creation -
+// the stored field is what is being checked, so it cannot be the only witness (a zero-height
+// restart that drops it would otherwise hand the context to its consumer).
+func (m *Mon) createdByModule(id string) string {
+	if t := m.ctxs[id]; t != nil {
+		return t.Module
+	}
+	return ""
+}
+
 func taxOf(fee sdk.Int, p types.Params) *big.Int {
 	return floorMul(fee.BigInt(), decRat(p.ServiceFeeTax))
 }
@@ -515,16 +525,16 @@ func (m *Mon) stepC05(sc *StepCtx, si stepInfo) {
 			}
 		case *types.MsgPauseRequestContext:
 			rc, ok := pre.Contexts[hexs(mm.RequestContextId)]
-			known, rightful, why = ok, ok && hexs(rc.Consumer) == signer && rc.ModuleName == "", "context consumer (non-module context)"
+			known, rightful, why = ok, ok && hexs(rc.Consumer) == signer && rc.ModuleName == "" && m.createdByModule(hexs(mm.RequestContextId)) == "", "context consumer (non-module context, as created)"
 		case *types.MsgStartRequestContext:
 			rc, ok := pre.Contexts[hexs(mm.RequestContextId)]
-			known, rightful, why = ok, ok && hexs(rc.Consumer) == signer && rc.ModuleName == "", "context consumer (non-module context)"
+			known, rightful, why = ok, ok && hexs(rc.Consumer) == signer && rc.ModuleName == "" && m.createdByModule(hexs(mm.RequestContextId)) == "", "context consumer (non-module context, as created)"
 		case *types.MsgKillRequestContext:
 			rc, ok := pre.Contexts[hexs(mm.RequestContextId)]
-			known, rightful, why = ok, ok && hexs(rc.Consumer) == signer && rc.ModuleName == "", "context consumer (non-module context)"
+			known, rightful, why = ok, ok && hexs(rc.Consumer) == signer && rc.ModuleName == "" && m.createdByModule(hexs(mm.RequestContextId)) == "", "context consumer (non-module context, as created)"
 		case *types.MsgUpdateRequestContext:
 			rc, ok := pre.Contexts[hexs(mm.RequestContextId)]
-			known, rightful, why = ok, ok && hexs(rc.Consumer) == signer && rc.ModuleName == "", "context consumer (non-module context)"
+			known, rightful, why = ok, ok && hexs(rc.Consumer) == signer && rc.ModuleName == "" && m.createdByModule(hexs(mm.RequestContextId)) == "", "context consumer (non-module context, as created)"
 		case *types.MsgRespondService:
 			r, ok := pre.Requests[hexs(mm.RequestId)]
 			known, rightful, why = ok, ok && hexs(r.Provider) == signer, "request's provider"
@@ -959,6 +969,9 @@ func (m *Mon) stepC08(sc *StepCtx, si stepInfo) {
 			if !want && sc.Res.OK {
 				m.fail(sc, "C08", "admission", fmt.Sprintf("accepted-known%v-pending%v-right%v", known, pending, right), "response accepted although request known=%v pending=%v provider-matches=%v", known, pending, right)
 			}
+		} else if want {
+			// a handler that panics on the response (C20 reports the panic itself) has not accepted it
+			m.fail(sc, "C08", "admission", "panicked-on-valid", "response by the designated provider to a pending request (expiry %d, now %d) made the handler panic instead of being accepted: %s", r.ExpirationHeight, pre.Height, sc.Res.Panic)
 		}
 	}
 	if sc.IsBlock() {
@@ -1755,6 +1768,9 @@ func (m *Mon) stepRestart(sc *StepCtx, si stepInfo) {
 		}
 		if d := delta(pre, post, a); !eqInt(d, wv) {
 			m.fail(sc, "C19", "prep-returns-escrow", "restart", "zero-height restart: %s (%d bytes) received %s, is owed %s", w.tracked[a], len(a)/2, d, wv)
+			// C02: a paid request that is neither answered nor expired when the chain restarts is
+			// settled all the same - its fee goes back to its consumer, once
+			m.fail(sc, "C02", "R4-restart-refund", cmpClass(d, wv), "zero-height restart: %s received %s for its pending fees and earnings, is owed %s", w.tracked[a], d, wv)
 			if a == w.addrOf("deposits") || d.Sign() < 0 {
 				m.fail(sc, "C03", "custody", "restart", "zero-height restart moved %s of account %s", d, w.tracked[a])
 			}
